@@ -766,6 +766,25 @@ def work_tr(task: tuple) -> dict:
     raise ValueError(kind)
 
 
+def guarded(arg: tuple) -> tuple:
+    """Pool entry point: (task, absolute deadline or None) -> (status, res).
+
+    A task whose stage deadline has passed is skipped (the stage then
+    reports a cap); an exception of the harness itself is passed back."""
+    import time
+    import traceback
+    task, deadline = arg
+    if deadline is not None and time.time() > deadline:
+        return ('skipped', None)
+    try:
+        return ('ok', work(task))
+    except (KeyboardInterrupt, SystemExit):
+        raise
+    except BaseException as e:  # noqa
+        return ('harness_error', f'{type(e).__name__}: {e}\n'
+                + traceback.format_exc()[-3000:])
+
+
 def work(task: tuple) -> dict:
     k = task[0]
     if k.startswith('rt'):
